@@ -565,6 +565,62 @@ def direct_place(b, op, depth=12):
     return pl
 
 
+def storage_roots(b, pl, _seen=None):
+    """Field-sensitive backward trace over *all* definitions: the set of (local, projection-repr) storage places a
+    place may denote, stepping through copies, moves, casts, reborrows and the matching operand of tuple / struct /
+    enum-variant literals (`Some((a, b))` matched back apart gives a and b separately, which atoms() cannot)."""
+    seen = _seen if _seen is not None else set()
+    key = (pl["l"], repr(pl["p"]))
+    if key in seen:
+        return set()
+    seen.add(key)
+    l, p = pl["l"], list(pl["p"])
+    me = {(l, b.expr({"l": l, "p": p}))}
+    if l <= b.arg_count:
+        return me
+    ds = [r for r in b.defs()[l] if r[1] in b.reachable()]
+    whole = [r for r in ds if r[0] == "stmt" and not r[3]["lhs"]["p"]]
+    if not whole or len(whole) != len([r for r in ds if r[0] != "mutcall"]):
+        return me
+    out = set()
+    for r in whole:
+        rv = r[3].get("rv") or {}
+        src = None
+        if "use" in rv or "cast" in rv:
+            sp = op_place(rv.get("use") or rv.get("cast"))
+            if sp is None:
+                continue
+            src = {"l": sp["l"], "p": list(sp["p"]) + p}
+        elif "ref" in rv:
+            if not p or p[0] != "*":
+                out |= me
+                continue
+            src = {"l": rv["ref"]["l"], "p": list(rv["ref"]["p"]) + p[1:]}
+        elif rv.get("agg") in ("tuple", "adt", "closure"):
+            rest = list(p)
+            dc = None
+            while rest and isinstance(rest[0], dict) and "dc" in rest[0]:
+                dc = rest.pop(0)
+            if not rest or not isinstance(rest[0], dict) or "f" not in rest[0]:
+                out |= me
+                continue
+            if dc is not None and "vi" in rv and dc.get("vi") != rv["vi"]:
+                continue  # a different variant: this definition cannot reach a read of that variant's field
+            f = rest[0]["f"]
+            if f >= len(rv.get("ops", ())):
+                out |= me
+                continue
+            sp = op_place(rv["ops"][f])
+            if sp is None:
+                continue
+            src = {"l": sp["l"], "p": list(sp["p"]) + rest[1:]}
+        else:
+            out |= me
+            continue
+        out |= storage_roots(b, src, seen)
+    return out
+
+
 def direct_field(b, op):
     pl = direct_place(b, op)
     if pl is None:
